@@ -31,6 +31,7 @@ def gen_cases(tier, seed):
                       "peek": bool(k % 5 == 1), "callback_leaves_eval": bool(k % 6 == 3), "list_loader": bool(k % 7 == 4),
                       "nested": bool(k % 3 == 0), "stale_grads": bool(k % 4 == 3),
                       "refit": bool(k % 5 == 0), "raising_callback": bool(k % 4 == 1), "binary_logits": bool(k % 6 == 1),
+                      "soft_targets": bool(k % 2 == 0), "bn_tracking_off": bool(k % 7 == 2), "test_under_no_grad": bool(k % 2 == 1),
                       "seed": int(rng.integers(2 ** 31))})
     return cases
 
@@ -75,6 +76,10 @@ def run_case(ns, ctx, c):
                 m_.eval()
     elif c.get("premode") == "all-eval":
         model.eval()
+    if c.get("bn_tracking_off"):
+        for m_ in descendants(model):
+            if isinstance(m_, nn.BatchNorm1d):
+                m_.track_running_stats = False       # the estimates are frozen on the live layer: validation / test still may not write them
 
     def data(nb):
         n = nb * c["bs"] + c["leftover"]
@@ -86,6 +91,8 @@ def run_case(ns, ctx, c):
             y = yi.astype(np.int64)
         else:
             y = np.eye(K, dtype=np.float32)[yi]
+            if c.get("soft_targets"):
+                y = y * 0.7 + 0.1              # label smoothing: the target class is the arg-max of the row, which is below 1
         return X, y
 
     def transform(loader, Xb, yb):
@@ -219,7 +226,14 @@ def run_case(ns, ctx, c):
             import io, contextlib
             with contextlib.redirect_stdout(io.StringIO()):
                 try:
-                    test_out = tr.test(tl)
+                    if c.get("test_under_no_grad"):
+                        with sg.no_grad():                 # the caller already switched tracking off: test leaves the mode as it found it
+                            test_out = tr.test(tl)
+                            if grad_on():
+                                viol.append(V("test:gradient-mode-not-restored:called-under-no_grad",
+                                              "Trainer.test called inside the caller's no_grad block returned with gradient tracking switched on"))
+                    else:
+                        test_out = tr.test(tl)
                 except Exception as e:
                     viol.append(V("test:raises", f"Trainer.test raised {type(e).__name__}", error=str(e)[:200]))
             test_events = list(events)
